@@ -73,18 +73,23 @@ def getStream (known : List String) (dp : String) : Except Err (List String) :=
 
 /-! ### filter_for_probability -/
 
-/-- the `probability` argument: scalar, list / tuple / array, or Series (with its index) -/
+/-- the `probability` argument: scalar, list / array, tuple, or Series (with its index) -/
 inductive Probs
   | scalar (p : Nat)
   | list (ps : List Nat)
+  | tuple (ps : List Nat)
   | series (idx : List Sim) (ps : List Nat)
 
 /-- `draws < probability` as pandas evaluates it: a scalar is broadcast; a list / array must have the
-population's length (`ValueError: Lengths must match`); a Series must be identically labelled
+population's length (`ValueError: Lengths must match`); a tuple is handed to numpy (a 1-tuple is broadcast like
+a scalar, any other length must match); a Series must be identically labelled
 (`ValueError: Can only compare identically-labeled Series objects`) -/
 def broadcast (idx : List Sim) : Probs → Except Err (List Nat)
   | .scalar p => .ok (List.replicate idx.length p)
   | .list ps => if ps.length = idx.length then .ok ps else .error .length
+  | .tuple ps =>
+    if ps.length = idx.length then .ok ps
+    else if ps.length = 1 then .ok (List.replicate idx.length (ps.headD 0)) else .error .length
   | .series i ps => if i = idx ∧ ps.length = idx.length then .ok ps else .error .labels
 
 /-- `mask = draws < probability` -/
